@@ -25,8 +25,12 @@ def field_run(ctx, wd, p, d, what, invs, prop, module='FieldFuncs'):
     tag = f'{p}_{d}'
     jp, op = os.path.join(wd, f'job_{tag}.json'), os.path.join(wd, f'ev_{tag}.json')
     json.dump(job, open(jp, 'w'))
-    pr = subprocess.run([sys.executable, os.path.join(ROOT, 'harness', 'workers', 'field_worker.py'), jp, op],
-                        capture_output=True, text=True, timeout=300)
+    try:
+        pr = subprocess.run([sys.executable, os.path.join(ROOT, 'harness', 'workers', 'field_worker.py'), jp, op],
+                            capture_output=True, text=True, timeout=300)
+    except subprocess.TimeoutExpired:
+        ctx.violation(f'{prop}:impl-hangs', {'field': [p, d], 'what': what, 'timeout_s': 300})
+        return
     if pr.returncode != 0:
         ctx.violation(f'{prop}:impl-raises', {'field': [p, d], 'stderr': pr.stderr[-1200:]})
         return
